@@ -25,7 +25,7 @@ def setup(ctx):
 
 def gen_case(ctx, i):
     rng = ctx.rng
-    content = C.gen_content(rng)
+    content = C.gen_content(rng, p_data=0.3)
     case = {"content": content, "queries": cc.standard_queries(rng, content), "decl_seed": rng.randrange(1 << 30)}
     if rng.random() < 0.5:
         # ask, edit values / function bodies / stoichiometry through the API, ask again
